@@ -1,0 +1,17 @@
+//go:build verif
+
+package udp
+
+import (
+	"net"
+
+	"github.com/DataDog/datadog-traceroute/common"
+	"github.com/DataDog/datadog-traceroute/packets"
+)
+
+// VerifNewDriver constructs the real udpDriver over a given Source/Sink with a chosen local endpoint.
+func VerifNewDriver(cfg *UDPv4, srcIP net.IP, srcPort uint16, sink packets.Sink, source packets.Source) common.TracerouteDriver {
+	cfg.srcIP = srcIP
+	cfg.srcPort = srcPort
+	return newUDPDriver(cfg, sink, source)
+}
